@@ -115,14 +115,29 @@ def admissible_inst(conc, delta) -> bool:
     """would the documented machine accept instantiating `conc` with `delta` (constraints respected, no capture)?  The toolkit cannot
     judge this itself (known findings under C04/C07), so generated modules stay on the admissible side."""
     try:
-        tb.inst(tb.of_repo(conc), {k: tb.of_repo(v) for k, v in delta.items()}, 'strict', check='doc')
-        return True
+        r = tb.inst(tb.of_repo(conc), {k: tb.of_repo(v) for k, v in delta.items()}, 'strict', check='doc')
+        # a pending substitution whose plug became the substituted variable itself (phi[x/x]) is one the machine refuses to build
+        # and the toolkit has no judgement for either
+        return not _redundant_subst(r)
     except tb.Capture as ex:
         # capture under an existential binder: the toolkit has to refuse it itself (then nothing is serialised); under a mu
         # binder it cannot (known finding), so those stay out
         return str(ex).startswith('evar')
     except tb.Undefined:
         return False
+
+
+def _redundant_subst(e) -> bool:
+    k = e[0]
+    if k in ('ev', 'sv', 'sy', 'mv'):
+        return False
+    if k in ('im', 'ap'):
+        return _redundant_subst(e[1]) or _redundant_subst(e[2])
+    if k in ('ex', 'mu'):
+        return _redundant_subst(e[2])
+    if (k == 'es' and e[3] == tb.ev(e[2])) or (k == 'ss' and e[3] == tb.sv(e[2])):
+        return True
+    return _redundant_subst(e[1]) or _redundant_subst(e[3])
 
 
 def random_module(rng: random.Random, max_claims=6, with_imports=True, syms=SYMS, pool_rounds=None, static_instantiate=0.04) -> Built:
@@ -211,6 +226,17 @@ def random_module(rng: random.Random, max_claims=6, with_imports=True, syms=SYMS
                 add(mod.prop1(), 'prop1')
             else:
                 add(mod.prop3(), 'prop3')
+        except AssertionError:
+            pass
+    if subs and rng.random() < 0.6:
+        # a proof that rests on an axiom of an IMPORTED module (loaded through that module's own thunk)
+        try:
+            sm = rng.choice(subs)
+            cands_ = [(m_, a_) for m_ in [sm] + list(getattr(sm, '_submodules', [])) for a_ in m_.get_axioms()]
+            if cands_:
+                m_, a_ = rng.choice(cands_)
+                add(m_.load_axiom(a_), 'load_axiom(imported)')
+                tags.add('loads_imported_axiom')
         except AssertionError:
             pass
     if rng.random() < 0.15:
